@@ -136,8 +136,9 @@ def gen_project(rng: random.Random, want_roots: Optional[int] = None, want_name:
     if rng.random() < .3 and known:
         m, c = rng.choice(known)
         args.append('--privacy=%s:%s.%s' % (rng.choice(['HIDDEN', 'PRIVATE', 'PUBLIC']), m, c))
-    if rng.random() < .2 and known:
-        args.append('--privacy=HIDDEN:%s' % rng.choice(known)[0])
+    hideable = sorted({m for m, _ in known if '.' in m})      # never a root: an all-hidden project crashes lunr (C01)
+    if rng.random() < .2 and hideable:
+        args.append('--privacy=HIDDEN:%s' % rng.choice(hideable))
     if rng.random() < .25:
         args += ['--html-viewsource-base=https://example.org/src', '--project-base-dir={SRC}']
     if rng.random() < .2:
@@ -232,7 +233,7 @@ class Check(PropertyCheck):
                 [0, 'a.b.py'], [0, 'x.so']]
         init = [0, '__init__.py']
         out = []
-        maxk = 3 if self.tier == 'quick' else 4
+        maxk = 2 if self.tier == 'quick' else 3
         for k in range(0, maxk + 1):
             for sub in itertools.combinations(pool, k):
                 entries = [init] + list(sub)
@@ -247,7 +248,7 @@ class Check(PropertyCheck):
         out.append({'kind': 'fs', 'roots': [[0, [0, 'p.py']], [1, [1, 'p', [0, '__init__.py']]], [2, [0, 'p.py']]]})
         out.append({'kind': 'fs', 'roots': [[0, [1, 'p', [1, '__init__.py', [0, 'z.py']], [0, 'a.py']]]]})  # __init__.py is a directory
         # random deeper trees
-        nrand = 150 if self.tier == 'quick' else 3000
+        nrand = 300 if self.tier == 'quick' else 3000
         names = ['a', 'b', 'B', 'c', '_p', 'zz', 'a.b', 'é']
 
         def rnd_dir(name: str, depth: int) -> Any:
@@ -523,6 +524,8 @@ class Check(PropertyCheck):
         for o in r['ops']:
             if o[0] == 0:
                 e = final.get(o[1])
+                if e and e[1] == 1:            # written through a symlink: the bytes are at the target
+                    e = final.get(e[2])
                 ops.append([0, o[1], cid(e[2]) if e and e[1] == 0 else 0])
             elif o[0] == 1:
                 ops.append([1, o[1], o[2]])
